@@ -11,7 +11,7 @@ import random
 import sys
 from decimal import Decimal
 from enum import Enum
-from typing import Optional, Union, Any
+from typing import Optional, Union, Any, Tuple, FrozenSet
 
 LONG = "L" * 70
 
@@ -110,7 +110,23 @@ def define():
         d = h.Param(dtype=Decimal, desc="an exact decimal", default=Decimal(1))
         n = h.Param(dtype=int, desc="n", default=0)
 
+    # containers of floats: (0.0,) and (-0.0,) are equal values, which the JSON writer spells differently
+    @h.paramclass
+    class PEI:
+        pts = h.Param(dtype=Tuple[float, ...], desc="points", default=())
+
+    @h.paramclass
+    class PE:
+        pts = h.Param(dtype=Tuple[float, ...], desc="points", default=())
+        fs = h.Param(dtype=FrozenSet[float], desc="set of floats", default=frozenset())
+        inner = h.Param(dtype=PEI, desc="nested", default=PEI())
+        nest = h.Param(dtype=Tuple[Tuple[float, ...], ...], desc="tuples in a tuple", default=())
+
     gens = {}
+
+    def G17(p: PE) -> h.Module:
+        mark("G17", p)
+        return simple_module(len(p.pts))
 
     def G16(p: PD) -> h.Module:
         mark("G16", p)
@@ -209,9 +225,9 @@ def define():
         mark("G9", p)
         return gens["G1"](a=p.a, b=p.b, c=p.c, d=p.d, o=p.o)
 
-    for f in (G1, G2, G3, G4, G5, G6, G7, G8, G9, G10, G11, G12, G13, G14, G15, G16):
+    for f in (G1, G2, G3, G4, G5, G6, G7, G8, G9, G10, G11, G12, G13, G14, G15, G16, G17):
         gens[f.__name__] = h.generator(f)
-    P = {"P1": P1, "P2": P2, "P3": P3, "P4": P4, "P5": P5, "P6": P6, "P7": P7, "P8": P8, "P9": P9, "PA": PA, "PB": PB, "PC": PC, "PD": PD}
+    P = {"P1": P1, "P2": P2, "P3": P3, "P4": P4, "P5": P5, "P6": P6, "P7": P7, "P8": P8, "P9": P9, "PA": PA, "PB": PB, "PC": PC, "PD": PD, "PE": PE, "PEI": PEI}
     gens["__seen__"] = seen
     gens["__last__"] = last
     return gens, P, runs
@@ -225,7 +241,7 @@ def calls(value_seed: int, n: int):
     r = random.Random(value_seed)
     out = []
     for _ in range(n):
-        g = r.choice(["G1", "G1", "G2", "G2", "G2", "G3", "G4", "G5", "G6", "G7", "G8", "G9", "G10", "G10", "G11", "G12", "G13", "G14", "G15", "G15", "G16", "G16"])
+        g = r.choice(["G1", "G1", "G2", "G2", "G2", "G3", "G4", "G5", "G6", "G7", "G8", "G9", "G10", "G10", "G11", "G12", "G13", "G14", "G15", "G15", "G16", "G16", "G17", "G17"])
         form = r.choice(["kw", "inst"])
         if g in ("G1", "G9"):
             kw = {"a": r.choice([0, 1, 2, 1.0, True, 10 ** 6, -1]), "b": r.choice(STRS), "c": r.choice([0.0, 1.0, 1, 0.1, 1e-9, 2.5, -0.0]),
@@ -246,6 +262,8 @@ def calls(value_seed: int, n: int):
                                  "PM1", "PM2", "NM1", "NM2", "PNP1", "PNP2", "NPN1", "NPN2",
                                  # two external modules whose (qualified name, parameter name) pairs concatenate to one string
                                  "XRES", "XRESW",
+                                 # one external module called with dictionaries holding 0.0, -0.0 (equal) and 1.0
+                                 "XDZ1", "XDZ2", "XDZ3",
                                  # two different modules that have no name (yet)
                                  "ANON1", "ANON2"]), "n": r.choice([0, 1])}
         elif g == "G7":
@@ -261,6 +279,14 @@ def calls(value_seed: int, n: int):
             kw = {"d": r.choice(["0.30000000000000000001", "0.30000000000000000002", "0.3", "1", "1.0", "1.00", "1E+0", "100", "1E+2", "-0", "0",
                                   # ... and beyond the 28 digits of the default decimal context
                                   "1.0000000000000000000000000000001", "1.0000000000000000000000000000002", "1.00000000000000000000000000000010"]), "n": r.choice([0, 1])}
+        elif g == "G17":
+            fl = lambda: r.choice([[], [0.0], [-0.0], [0.0, 1.0], [-0.0, 1.0], [1.0, 0.0], [1.0]])
+            kw = {}
+            for f in ("pts", "fs", "inner"):
+                if r.random() < 0.5:
+                    kw[f] = fl()
+            if r.random() < 0.3:
+                kw["nest"] = [fl(), fl()]
         elif g == "G15":
             kw = {"tag": r.choice([1, "1", 0, "0", "x", 2, "None", "1.0"]), "anyv": r.choice([None, "None", 1, "1", 1.5, "1.5", True]), "n": r.choice([None, 1])}
         elif g == "G10":
@@ -309,6 +335,13 @@ def calls(value_seed: int, n: int):
     out.append(("G10", "kw", {"n": 0, "fs": [["ab"], ["ab", "cd"]]}))
     for dtxt in ("1", "1.0000000000000000000000000000001", "1.0000000000000000000000000000002", "1.00000000000000000000000000000010"):
         out.append(("G16", "kw", {"d": dtxt, "n": 0}))
+    for f in ("pts", "fs", "inner"):
+        for v in ([0.0, 1.0], [-0.0, 1.0], [0.0], [-0.0]):
+            out.append(("G17", "kw", {f: v}))
+    out.append(("G17", "kw", {"nest": [[0.0], [1.0]]}))
+    out.append(("G17", "kw", {"nest": [[-0.0], [1.0]]}))
+    for x in ("XDZ1", "XDZ2", "XDZ3"):
+        out.append(("G6", "kw", {"m": x, "n": 0}))
     for x in ("ANON1", "ANON2", "XRES", "XRESW", "XA", "XB", "PM1", "PM2", "NM1", "NM2", "PNP1", "PNP2", "NPN1", "NPN2"):
         out.append(("G6", "kw", {"m": x, "n": 0}))
     for gname in ("G1", "aux:G1", "G9", "aux:G9"):
@@ -360,11 +393,24 @@ def realise(gens, P, g, kw):
                 pc = h.paramclass(type("ResParams" + m, (), {fld: h.Param(dtype=int, desc=fld, default=1)}))
                 _EXTS[m] = h.ExternalModule(name="res" if m == "XRES" else "resw", domain="pdkq", port_list=[h.Input(name="a"), h.Output(name="z")], paramtype=pc)
             kw["m"] = _EXTS[m]()
+        elif m in ("XDZ1", "XDZ2", "XDZ3"):
+            if "XDZ" not in _EXTS:
+                _EXTS["XDZ"] = h.ExternalModule(name="dz", domain="pdkq", port_list=[h.Input(name="a"), h.Output(name="z")], paramtype=dict)
+            kw["m"] = _EXTS["XDZ"](**{"x": {"XDZ1": 0.0, "XDZ2": -0.0, "XDZ3": 1.0}[m], "v": ({"XDZ1": 0.0, "XDZ2": -0.0, "XDZ3": 0.0}[m], 2.0)})
         elif m in ("XA", "XB"):
             # the same device name from two libraries (domains): different external modules
             if m not in _EXTS:
                 _EXTS[m] = h.ExternalModule(name="inv", domain="lib" + m[1], port_list=[h.Input(name="a"), h.Output(name="z")], paramtype=h.HasNoParams)
             kw["m"] = _EXTS[m]()
+    if g == "G17":
+        if "pts" in kw:
+            kw["pts"] = tuple(kw["pts"])
+        if "fs" in kw:
+            kw["fs"] = frozenset(kw["fs"])
+        if "inner" in kw:
+            kw["inner"] = P["PEI"](pts=tuple(kw["inner"]))
+        if "nest" in kw:
+            kw["nest"] = tuple(tuple(x) for x in kw["nest"])
     if g == "G16":
         kw["d"] = Decimal(kw["d"])
     if g == "G12":
@@ -387,7 +433,7 @@ def realise(gens, P, g, kw):
 
 
 def paramclass_of(g):
-    return {"G1": "P1", "G2": "P2", "G3": "P3", "G4": "P4", "G5": "P5", "G6": "P6", "G7": "P7", "G8": "P8", "G9": "P1", "G10": "P9", "G11": "PA", "G12": "PB", "G13": "P8", "G14": "P8", "G15": "PC", "G16": "PD"}[g]
+    return {"G1": "P1", "G2": "P2", "G3": "P3", "G4": "P4", "G5": "P5", "G6": "P6", "G7": "P7", "G8": "P8", "G9": "P1", "G10": "P9", "G11": "PA", "G12": "PB", "G13": "P8", "G14": "P8", "G15": "PC", "G16": "PD", "G17": "PE"}[g]
 
 
 def run_program(value_seed: int, order_seed: int, n: int):
